@@ -904,3 +904,72 @@ Proof.
   - apply Hmid; [apply text_ret|]. apply dok_ret. exact Hpush.
   - apply Hmid; [apply text_ret|]. apply dok_ret. exact Hpush.
 Qed.
+
+Theorem S_all_holds : forall f, S_all f.
+Proof.
+  induction f as [|f IH].
+  - repeat split; intros; exact I.
+  - split; [intros; apply step_run_op; assumption|].
+    split; [intros; apply step_run_ops; assumption|].
+    split; [intros; apply step_keyh; assumption|].
+    split; [intros; apply step_mouseh; assumption|].
+    split; [intros; apply step_hkey; assumption|].
+    split; [intros; apply step_kkids; assumption|].
+    split; [intros; apply step_hmouse; assumption|].
+    split; [intros; apply step_mkids; assumption|].
+    intros; apply step_otm; assumption.
+Qed.
+
+Lemma good_heap0 : good [] (heap0 fixed).
+Proof.
+  exists e0. split; [reflexivity|]. split; [exact hinv_heap0|]. split; [exact agreeE_init|]. split; [split|].
+  - intros i x Hn. destruct i as [|[|i]]; cbn in Hn; try discriminate. inversion Hn. reflexivity.
+  - intros i [].
+  - intros F1 i F2 x p E. destruct F1; discriminate.
+Qed.
+
+Lemma run_script_events : forall fuel l k h, good [] h \/ ill h ->
+  match run_script_from fixed fuel l k h with
+  | VOk h' => good [] h' \/ ill h'
+  | VFault _ _ hf => ill hf
+  | VNoFuel _ => True
+  end.
+Proof.
+  intros fuel l. induction l as [|o l IH]; intros k h Hg; cbn [run_script_from]; [exact Hg|].
+  assert (H : dok [] (run_op fixed fuel o h)).
+  { destruct Hg as [G|Hi]; [apply (S_all_holds fuel); exact G|apply dok_ill; [apply text_run_op|exact Hi]]. }
+  destruct (run_op fixed fuel o h) as [u h'|x hf|]; cbn in H; [|exact H|exact I].
+  apply IH. destruct H; auto.
+Qed.
+
+(* THE THEOREM FOR HISTORIES WITH EVENTS.  Any script (key events, mouse press / release / wheel events, handlers
+   bound at any depth that ref, unref, close, create, restack, show, hide, focus, flush, bind, unbind, send further
+   events ...), any fuel: if the model faults, then the trace of what was executed -- the client's calls, those made by
+   handlers included, and the library's frame references -- is not one that the discipline of LifeSpecEv.v accepts. *)
+Theorem events_no_fault : forall fuel l f step hf,
+  run_script fixed fuel l = VFault f step hf -> wf_trace (tr hf) = false.
+Proof.
+  intros fuel l f step hf Hr. pose proof (run_script_events fuel l O (heap0 fixed) (or_introl good_heap0)) as H.
+  unfold run_script in Hr. rewrite Hr in H. unfold wf_trace. unfold ill in H. rewrite H. reflexivity.
+Qed.
+
+(* ... and a run that completes within the discipline ends in a heap that satisfies the invariant, agrees with the
+   ghost state, has no dispatch frame left, and holds nothing once every reference has been dropped *)
+Theorem events_completed : forall fuel l h,
+  run_script fixed fuel l = VOk h -> wf_trace (tr h) = true ->
+  hinv [] h /\ exists g, echeck e0 (rev (tr h)) = Some g /\ agreeE g h /\
+                         (forall i x, nth_error g i = Some x -> e_fr x = 0) /\
+                         (all_dropped_e g = true -> heap_empty h = true).
+Proof.
+  intros fuel l h Hr Hwf. pose proof (run_script_events fuel l O (heap0 fixed) (or_introl good_heap0)) as H.
+  unfold run_script in Hr. rewrite Hr in H. destruct H as [G|Hi].
+  2:{ unfold wf_trace in Hwf. unfold ill in Hi. rewrite Hi in Hwf. discriminate. }
+  destruct G as (g & Hg & HI & AG & [Hfr _] & _). split; [exact HI|]. exists g. split; [exact Hg|]. split; [exact AG|].
+  split; [intros i x Hn; rewrite (Hfr i x Hn); reflexivity|].
+  intro Hd. apply all_released; [exact HI|]. intros a c Hf. exfalso.
+  destruct (agreeE_live_cell g h HI AG a c Hf) as (x & Hn & Href & _).
+  unfold all_dropped_e in Hd. rewrite forallb_forall in Hd.
+  assert (Hin : In x g) by (eapply nth_error_In; eauto). specialize (Hd x Hin).
+  apply andb_prop in Hd. destruct Hd as [H1 H2]. apply Z.eqb_eq in H1. apply Z.eqb_eq in H2.
+  pose proof (hi_ref [] h HI a c Hf (fun y => y)). lia.
+Qed.
